@@ -184,6 +184,22 @@ def check(ctx, rep):
     if u:
         rep.gap("is_unit_char:class", isu.where(), "byte class not fully evaluated (unknown for %s)" % scanai.mask_str(u))
     dec_first = scanai.mask_of(b"0123456789_.-")
+    # the byte class that makes parse_number *start* reading a unit: the predicate guarding its call of parse_unit (today the same
+    # is_unit_char; a narrower "unit start" predicate leaves out the symbols that begin with `/` or `_`)
+    start_cls, start_fn = t, "is_unit_char"
+    # (evaluated on the program as compiled: a predicate that is new to the rules would otherwise be spliced into parse_number)
+    raw = mir.load(ctx.facts_dir, inline=False) if getattr(ctx, "facts_dir", None) else prog
+    pn0 = raw.get("haystack::encoding::zinc::decode::scalar::number::parse_number")
+    if pn0 is not None:
+        for bi0, tt0 in pn0.calls():
+            if strip_generics(mir.callee_name(tt0) or "").endswith("number::parse_unit"):
+                for g0 in G.guards_at(pn0, bi0):
+                    if g0.op == "True" and g0.a is not None and g0.a.kind == "call" and strip_generics(g0.a.v).startswith("haystack::encoding::zinc::decode::scalar::number::"):
+                        gb = raw.get(strip_generics(g0.a.v))
+                        if gb is not None and gb.id != isu.id:
+                            t2, _f2, u2 = scanai.byte_class(scanai.AI(raw), gb.id)
+                            if not u2:
+                                start_cls, start_fn = t2, strip_generics(g0.a.v).split("::")[-1]
     exp_intro, exp_look = exponent_lookahead(prog, rep)
     nsym = 0
     for n, uu in sorted(units.items()):
@@ -203,6 +219,9 @@ def check(ctx, rep):
             continue
         if dec_first >> bs[0] & 1:
             rep.bad("R-UNITS", "R-UNITS:" + key, uu["where"], "symbol %r starts with a character the decimal scanner swallows" % sym)
+            continue
+        if not (start_cls >> bs[0] & 1):
+            rep.bad("R-UNITS", "R-UNITS:" + key, uu["where"], "symbol %r starts with a byte outside %s, the class on which the number reader begins to read a unit (%s): the number is read without its unit" % (sym, scanai.mask_str(start_cls), start_fn))
             continue
         if chr(bs[0]) in exp_intro and len(bs) > 1 and (exp_look >> bs[1] & 1):
             rep.bad("R-UNITS", "R-UNITS:" + key, uu["where"], "symbol %r reads as an exponent after a number: the reader treats %r followed by one of %s as an exponent" % (sym, chr(bs[0]), scanai.mask_str(exp_look)))
